@@ -67,6 +67,13 @@ SpellTab ==
   @@ "ip6port"   :> S("[::1]:8080", "::1", "ok")
   @@ "ip6other"  :> S("[::2]", "::2", "ok")
   @@ "ip6look"   :> S("[::1:1]", "::1:1", "ok")
+  \* zoned IPv6 literals whose zone looks like a sub-domain of h0: an address, never a sub-domain.
+  \* (The URL is re-parsed on every hop and the zone's %25 is unescaped each time: the singly
+  \* escaped forms are refused at the re-parse, the doubly escaped one reaches the network.)
+  @@ "ip6zone"   :> S("[::1%25.h0.test]", "", "bad")
+  @@ "ip6zoneif" :> S("[fe80::1%25eth0]", "", "bad")
+  @@ "ip6zone2"  :> S("[::1%2525.h0.test]:8080", "::1%.h0.test", "odd")
+  @@ "ip6zone2s" :> S("[fe80::2%2525a.h0.test]", "fe80::2%a.h0.test", "odd")
   @@ "ip4"       :> S("10.0.0.1", "10.0.0.1", "ok")
   @@ "ip4look"   :> S("110.0.0.1", "110.0.0.1", "ok")
   @@ "fragsame"  :> S("h0.test#@evil.test", "h0.test", "odd")   \* authority ends at '#'
@@ -245,7 +252,7 @@ KeyInits == {"same", "upport", "sub", "ip6"}
 KeyTargets == {"same", "port", "sub", "subsub", "prefix", "suffix", "atevil", "other", "ip6port", "ip6look", "pctdot", "trunc"}
 \* chains that leave through a trusted (sub)domain to look-alikes of the names seen along the chain:
 \* the trust decision of EVERY hop is against the initial host
-ChainTargets == {"same", "upport", "sub", "subup", "subsub", "trunc", "truncsub", "prefix", "other"}
+ChainTargets == {"same", "upport", "sub", "subup", "subsub", "trunc", "truncsub", "prefix", "other", "ip6zone2", "ip6port"}
 ChainStatuses == {302, 307}
 ChainForms == {"abs", "noscheme"}
 ChainMethods == {"GET"}
